@@ -85,6 +85,10 @@ def alpha_of(case):
 
 def ts_value(case):
     q = F(case["Ts"])
+    if case.get("ts_kind") == "true":       # Ts=True: case["Ts"] is "1", the number the formulas use
+        return True
+    if case.get("ts_kind") == "npf":
+        return np.float64(float(q))
     if case.get("ts_int") and q.denominator == 1:
         return int(q)
     return float(q)
@@ -185,8 +189,110 @@ def companion(num, den):
     return n, A, B, C, D
 
 
+# ==== strengthening after seeded changes: period kinds, second step, tiny coefficients (begin) ====
+EPS_FLOOR = {1: 43, 2: 43, 3: 39, 4: 39}     # coefficient tolerance 2^-floor * S by degree (see coef_mismatch)
+JOIN_DT = ["N", "T", "D" + tok(fr(0.1)), "D1/4", "D1", "D1/2", "C", "same", "same"]   # 0.1: the float's exact value
+SCALES = [(-40, 0), (0, -40), (-30, -15), (-45, 0), (0, -45), (-20, -20), (-43, -2), (30, 0), (0, 24)]
+
+
+def ts_tok(case):
+    """the period token of the driver line: `T` for the Python value True"""
+    return "T" if case.get("ts_kind") == "true" else case["Ts"]
+
+
+def join_tok(case):
+    j = case.get("join")
+    return " J %d %s" % (j["first"], j["dt"]) if j else ""
+
+
+def split_join(out):
+    """driver output 'ok ... J <dt>' / '... J err <e>' -> (main, join or None)"""
+    if " J " in out:
+        main, j = out.rsplit(" J ", 1)
+        return main, ({"err": j.split()[1]} if j.startswith("err ") else {"dt": j.strip()})
+    return out, None
+
+
+def join_impl(r, j):
+    """second step on the real code: the sampled system r in series / parallel with a system of
+    timebase j['dt'] (same class, matching dimensions); returns the timebase of the result"""
+    dt = dt_value(j["dt"])
+    try:
+        if isinstance(r, ct.StateSpace):
+            p, m = r.noutputs, r.ninputs
+            shp = {"mul": (m, m) if j["first"] else (p, p), "add": (p, m)}[j["op"]]
+            o = ct.ss(np.zeros((0, 0)), np.zeros((0, shp[1])), np.zeros((shp[0], 0)), 2 * np.ones(shp), dt)
+        else:
+            o = ct.tf([1.0], [1.0, -0.5], dt)
+        x, y = (r, o) if j["first"] else (o, r)
+        res = x * y if j["op"] == "mul" else x + y
+        return {"dt": exact.dt_canon(res.dt)}
+    except Exception as e:  # noqa
+        return {"err": classify_exc(e), "exc": "%s: %s" % (type(e).__name__, str(e)[:100])}
+
+
+def siso_tf_exact(A, B, C, D):
+    """exact transfer function (num, den highest power first, den monic) of a SISO state-space
+    quadruple over Fractions (Faddeev-LeVerrier): den = det(zI-A), num = C adj(zI-A) B + D den"""
+    n = len(A)
+    den = [Fraction(1)]
+    M = exmat.eye(n)
+    num = []
+    for k in range(1, n + 1):
+        num.append(exmat.mul(exmat.mul(C, M, n), B, n)[0][0] if n else Fraction(0))
+        AM = exmat.mul(A, M, n)
+        c = -sum(AM[i][i] for i in range(n)) / k
+        den.append(c)
+        M = [[AM[i][j] + (c if i == j else 0) for j in range(n)] for i in range(n)]
+    d = D[0][0]
+    num = [Fraction(0)] + num
+    return [x + d * y for x, y in zip(num, den)], den
+
+
+def exact_gbt_num(al, h, num, den):
+    """generator-side aid only (never used in a comparison): the exact numerator of the substituted
+    transfer function, to aim the gain of a tiny-coefficient case at a magnitude band"""
+    n = len(den) - 1
+    num = [Fraction(0)] * (n + 1 - len(num)) + list(num)
+    a, b = [Fraction(1), Fraction(-1)], [h * al, h * (1 - al)]
+
+    def ppow(p, k):
+        r = [Fraction(1)]
+        for _ in range(k):
+            r = exact.pmul(r, p)
+        return r
+
+    def sub(p):
+        out = [Fraction(0)] * (n + 1)
+        for k, c in enumerate(reversed(p)):
+            t = exact.pmul(ppow(a, k), ppow(b, n - k))
+            t = [Fraction(0)] * (n + 1 - len(t)) + t
+            out = [x + c * y for x, y in zip(out, t)]
+        return out
+    nd, dd = sub(num), sub(den)
+    return ([x / dd[0] for x in nd] if dd[0] != 0 else None), dd[0]
+
+
+def log2f(x):
+    """floor(log2 |x|) of a non-zero Fraction"""
+    x = abs(Fraction(x))
+    e = x.numerator.bit_length() - x.denominator.bit_length()
+    return e if Fraction(2) ** e <= x else e - 1
+# ==== strengthening after seeded changes (end) ====
+
+
 class C14(Family):
     prop = "C14"
+    # source-text tie (notes/NOTES-py2lean-arith.md): Generated/Pade.lean is rewritten from the text of
+    # control/delay.py:pade of the tree under check on every run and proved equal to the model `pade`
+    extra_modules = ["CtrlVerif.Props.C14Gen"]
+
+    def pre_build(self):
+        import os
+        from core import py2lean_arith, leanproj
+        repo = os.environ.get("VERIF_REPO") or "/repo"
+        problems, self.gen_info = py2lean_arith.regenerate(repo, leanproj.LEAN, ("pade",))
+        return problems
     externals = [
         "numpy.tan (its value tan(w*Ts/2) is an argument of the model)",
         "scipy.linalg.expm (zero-order hold: the blocks of expm(Ts*[[A,B],[0,0]]) are an argument of "
@@ -203,13 +309,28 @@ class C14(Family):
         "foh and impulse (accepted by SciPy, not documented by python-control) are not modelled",
         "TransferFunction.sample(method='zoh') is compared with the model's zero-order hold of the "
         "controller-canonical realisation built by the harness (values at 2n+1 points)",
-        "Ts <= 0 is outside the property (the code accepts Ts = 0 and returns a 'continuous' system)"]
+        "Ts <= 0 is outside the property (the code accepts Ts = 0 and returns a 'continuous' system)",
+        # strengthening after seeded changes
+        "tiny-coefficient stream (SISO TF, Ts = 2^-8 .. 2^-14 or the floats 1e-3 / 1e-4, gains 2^g): numerator and "
+        "denominator coefficients compared one by one with the absolute tolerance 2^-43 * S (degree <= 2) / "
+        "2^-39 * S (degree 3, 4), S = max(1, max|den| + max|num|); SciPy's ss2tf is accurate to a few eps * S "
+        "in absolute terms only (observed <= 3 resp. 31 eps * S), so exact coefficients below that floor are not "
+        "resolved (evidence keys tiny_max_coef_log2, tiny_tol_over_error_log2)",
+        "scaled stream: B, C scaled by powers of two (D by the product); the float pipeline is exactly covariant, "
+        "matrices and transfer-matrix values are compared after undoing the scaling",
+        "period kinds: Python float / int, numpy.float64 and the Python value True (numbers of Ts = 1, stored "
+        "timebase True); numpy integer / float32 / 0-dim array periods (rejected by the constructor's timebase "
+        "validation) are not generated"]
     rule = ("state-space systems (0..3 states, quick; ..4 thorough; shapes {1,2,3}^2, integer/dyadic data), "
             "SISO transfer functions (degree 0..4), Ts dyadic, all method names incl. unknown ones, "
             "alpha in {0,1/4,1/2,3/4,1} and invalid, prewarp frequencies incl. 0, source timebases "
             "0/None/True/dt, called as sys.sample / sample_system / c2d, names and label keywords; "
             "zero-order hold on nilpotent and general A; matched on TFs with known real roots; pade for "
-            "all (n, numdeg) with n <= 8 (10 thorough), T rational, invalid arguments; a case is "
+            "all (n, numdeg) with n <= 8 (10 thorough), T rational, invalid arguments; period kinds float / int / "
+            "numpy.float64 / True; a second step (series / parallel with a system of timebase None / True / "
+            "0 / another or the same period, either operand order); SISO TFs with tiny exact coefficients "
+            "(small period x relative degree, small gain) incl. zero-order hold; B / C scaled by 2^-45 .. 2^30; "
+            "a case is "
             "non-trivial when the system has states / degree >= 1 (pade: n >= 1) and the model returns a result")
 
     # ---- generation ---------------------------------------------------------------
@@ -306,6 +427,7 @@ class C14(Family):
                     "names": self.gen_names(rng, m, p, n)}
             if rng.random() < 0.02:
                 case["Ts"] = rng.choice(["-1/2", "-1"])
+            self.add_period(rng, case)
             self.set_tan(case)
             if not self.guard_ss(case):
                 continue
@@ -357,6 +479,7 @@ class C14(Family):
                     "method": method, "alpha": alpha, "pw": pw,
                     "via": rng.choice(["method", "method", "func", "c2d"]),
                     "names": self.gen_names(rng, 1, 1, 0, tf=True)}
+            self.add_period(rng, case)
             self.set_tan(case)
             a, h = alpha_of(case), twarp_of(case)
             if a is not None and h is not None and method in GBT_METHODS and a * h != 0:
@@ -382,11 +505,15 @@ class C14(Family):
                 "method": "zoh", "alpha": None, "pw": None,
                 "via": rng.choice(["method", "func", "c2d", "default"]),
                 "names": self.gen_names(rng, 1, 1, 0, tf=True)}
+        self.add_period(rng, case)
+        self.fill_tfzoh(case)
+        return case
+
+    def fill_tfzoh(self, case):
         n, A, B, C, D = companion([F(x) for x in case["num"]], [F(x) for x in case["den"]])
         flat = lambda M: [tok(x) for r in M for x in r]
         case.update({"n": n, "p": 1, "m": 1, "A": flat(A), "B": flat(B), "C": flat(C), "D": flat(D)})
         self.set_ext(case)
-        return case
 
     def gen_matched(self, rng, tier):
         pool = [Fraction(x, 2) for x in range(-6, 5)]
@@ -410,10 +537,96 @@ class C14(Family):
                 "names": self.gen_names(rng, 1, 1, 0, tf=True)}
         if case["names"]:
             case["names"]["oin"] = case["names"]["oout"] = None if rng.random() < 0.7 else ["q"]
+        self.add_period(rng, case)
+        Ts = case["Ts"]
         T = float(F(Ts))
         case["ez"] = [tok(fr(float(np.exp(float(z) * T)))) for z in zeros]
         case["ep"] = [tok(fr(float(np.exp(float(p) * T)))) for p in poles]
         return case
+
+    # ==== strengthening after seeded changes: generators (begin) ====
+    def add_period(self, rng, case):
+        """period kinds beside float / int: the Python value True ('period unspecified': the numbers
+        are those of Ts = 1, the stored timebase is True) and numpy.float64; and a second step: the
+        sampled system combined with a system of another timebase"""
+        r = rng.random()
+        if F(case["Ts"]) > 0:
+            if r < 0.07:
+                case["ts_kind"], case["Ts"] = "true", "1"
+            elif r < 0.13:
+                case["ts_kind"] = "npf"
+        if rng.random() < 0.3:
+            dt = rng.choice(JOIN_DT)
+            if dt == "same":
+                dt = "T" if case.get("ts_kind") == "true" else "D" + case["Ts"]
+            if not dt.startswith("D-"):
+                case["join"] = {"dt": dt, "first": rng.randint(0, 1), "op": rng.choice(["mul", "add"])}
+
+    def gen_tftiny(self, rng, tier, zoh=False):
+        """SISO transfer functions whose exact sampled numerator is tiny in absolute terms: small
+        period x relative degree (c ~ Ts^r) and / or a small gain 2^g, aimed at magnitudes from 2^-12 down
+        to just above what the float pipeline (tf2ss -> gbt/zoh -> ss2tf, absolute accuracy ~ eps * S)
+        resolves; compared coefficient by coefficient (coef_mismatch)"""
+        for _ in range(200):
+            dd = rng.choice([1, 1, 2, 2, 2, 3] if zoh else [1, 1, 2, 2, 2, 3, 4])
+            den = [Fraction(rng.choice([1, 1, 2, -1]))] + [Fraction(rng.randint(-3, 3)) for _ in range(dd)]
+            if zoh and rng.random() < 0.3:
+                den = [Fraction(1)] + [Fraction(0)] * dd
+            r = rng.randint(1, dd)
+            num = [Fraction(rng.choice([1, 2, -1, 3]))] + [Fraction(rng.randint(-3, 3)) for _ in range(dd - r)]
+            k = rng.randint(8, 14)
+            Ts = "1/%d" % 2 ** k
+            if rng.random() < 0.12:
+                Ts, k = rng.choice([(tok(fr(1e-3)), 10), (tok(fr(1e-4)), 13)])      # the floats' exact values
+            floor = EPS_FLOOR[dd]
+            e = rng.uniform(floor - 7, floor - 1.7) if rng.random() < 0.55 else rng.uniform(12, floor - 7)
+            if zoh:
+                method, alpha = "zoh", None
+            else:
+                method, alpha, _ = self.gen_method(rng, tf=True)
+                if method not in GBT_METHODS or (method == "gbt" and (alpha is None or not 0 <= F(alpha) <= 1)):
+                    continue
+            case = {"k": "tfzoh" if zoh else "tf", "dt": rng.choice(["C", "C", "C", "N"]),
+                    "Ts": Ts, "ts_int": False, "method": method, "alpha": alpha, "pw": None,
+                    "via": rng.choice(["method", "func", "c2d"] + (["default"] if zoh else [])),
+                    "names": None, "tiny": True}
+            if not zoh and method in ("bilinear", "tustin") and rng.random() < 0.25:
+                case["pw"] = [rng.choice(W_POOL), None]
+            self.set_tan(case)
+            h = twarp_of(case)
+            if zoh:
+                m0 = abs(num[0]) * F(Ts) ** r
+            else:
+                nd, lead = exact_gbt_num(alpha_of(case), h, num, den)
+                if nd is None or abs(lead) < Fraction(1, 16):
+                    continue
+                m0 = max(abs(x) for x in nd)
+                if m0 == 0:
+                    continue
+            g = round(-e - (log2f(m0) + 0.5))
+            num = [x * Fraction(2) ** g for x in num]
+            case.update({"num": toklist(num), "den": toklist(den)})
+            if zoh:
+                self.fill_tfzoh(case)
+            return case
+        raise RuntimeError("generator stuck")
+
+    def gen_ss_scaled(self, rng, tier):
+        """state-space systems with B and / or C scaled by a power of two (D by the product): every
+        step of the float pipeline is exactly covariant under such a scaling, so the result is compared
+        after undoing it -- entries that are tiny in absolute terms are compared relative to their scale"""
+        for _ in range(200):
+            case = self.gen_ss(rng, tier)
+            if case["n"] == 0:
+                continue
+            gB, gC = rng.choice(SCALES)
+            case["scale"] = {"B": gB, "C": gC}
+            for nm, g in (("B", gB), ("C", gC), ("D", gB + gC)):
+                case[nm] = [tok(F(x) * Fraction(2) ** g) for x in case[nm]]
+            self.set_ext(case)
+            return case
+        raise RuntimeError("generator stuck")
+    # ==== strengthening after seeded changes: generators (end) ====
 
     def gen_pade(self, rng, tier, n=None, nd="x"):
         nmax = 8 if tier == "quick" else 10
@@ -438,11 +651,18 @@ class C14(Family):
             out.append(self.gen_matched(rng, tier))
         for _ in range(nma // 2):
             out.append(self.gen_tfzoh(rng, tier))
+        # strengthening after seeded changes: tiny-coefficient and scaled streams
+        for i in range(nma):
+            out.append(self.gen_tftiny(rng, tier, zoh=(i % 3 == 2)))
+        for _ in range(nma // 2):
+            out.append(self.gen_ss_scaled(rng, tier))
         # pade: every (n, numdeg) with n <= 8, one T each; plus random and invalid ones
         nmax = 8 if tier == "quick" else 10
         for n in range(nmax + 1):
             for nd in [None] + list(range(-n, n + 1)):
                 out.append(self.gen_pade(rng, tier, n, nd))
+        for T in ("1", "1/2", "0"):             # the defaults of the signature (case n=1, nd=None)
+            out.append({"k": "pade", "T": T, "Tkind": "float", "n": 1, "nd": None, "dflt": 1})
         for _ in range(npa):
             c = self.gen_pade(rng, tier)
             r = rng.random()
@@ -473,7 +693,18 @@ class C14(Family):
                         "oin": None, "oout": None, "ost": None}}
         c5["ez"] = [tok(fr(float(np.exp(-2 * 0.5))))]
         c5["ep"] = [tok(fr(float(np.exp(-1 * 0.5)))), tok(fr(float(np.exp(-2 * 0.5))))]
-        return [c1, c2, c3, c4, c5, {"k": "pade", "T": "1", "Tkind": "int", "n": 3, "nd": -2}]
+        # strengthening after seeded changes: Ts=True with a second step; tiny exact coefficients
+        c7 = dict(base, method="zoh", Ts="1", ts_kind="true",
+                  join={"dt": "D" + tok(fr(0.1)), "first": 0, "op": "mul"})
+        self.set_ext(c7)
+        c8 = {"k": "tf", "num": [tok(Fraction(1, 2 ** 30))], "den": ["1", "1"], "dt": "C", "Ts": "1/1024",
+              "ts_int": False, "method": "bilinear", "alpha": None, "pw": None, "via": "func", "names": None,
+              "tiny": True}
+        c9 = {"k": "tfzoh", "num": [tok(Fraction(1, 2 ** 29))], "den": ["1", "0"], "dt": "C", "Ts": "1/2048",
+              "ts_int": False, "method": "zoh", "alpha": None, "pw": None, "via": "method", "names": None,
+              "tiny": True}
+        self.fill_tfzoh(c9)
+        return [c1, c2, c3, c4, c5, {"k": "pade", "T": "1", "Tkind": "int", "n": 3, "nd": -2}, c7, c8, c9]
 
     # ---- execution ------------------------------------------------------------------
     def opt(self, x):
@@ -490,19 +721,19 @@ class C14(Family):
             ext = "E " + " ".join(case["ext"]) if case.get("ext") else "-"
             l1 = "c2d ss %d %d %d %s %s %s %s %s %s %s" % (
                 n, p, m, case["dt"], " ".join(case["A"] + case["B"] + case["C"] + case["D"]),
-                case["Ts"], method, self.opt(case.get("alpha")), pw, ext)
-            return [" ".join(l1.split()), names_line(case, m, p, n if k == "ss" else 0)]
+                ts_tok(case), method, self.opt(case.get("alpha")), pw, ext)
+            return [" ".join(l1.split()) + join_tok(case), names_line(case, m, p, n if k == "ss" else 0)]
         if k == "tf":
             l1 = "c2d tf %d %s %d %s %s %s %s %s %s" % (
                 len(case["num"]), " ".join(case["num"]), len(case["den"]), " ".join(case["den"]),
-                case["dt"], case["Ts"], method, self.opt(case.get("alpha")), pw)
-            return [l1, names_line(case, 1, 1, 0)]
+                case["dt"], ts_tok(case), method, self.opt(case.get("alpha")), pw)
+            return [l1 + join_tok(case), names_line(case, 1, 1, 0)]
         if k == "matched":
             ls = lambda v: "%d%s" % (len(v), "".join(" " + x for x in v))
             l1 = "c2d matched %s %s %s %s %s %s %s" % (
                 ls(case["num"]), ls(case["den"]), ls(case["zeros"]), ls(case["poles"]),
-                ls(case["ez"]), ls(case["ep"]), case["Ts"])
-            return [l1, names_line(case, 1, 1, 0)]
+                ls(case["ez"]), ls(case["ep"]), ts_tok(case))
+            return [l1 + join_tok(case), names_line(case, 1, 1, 0)]
         raise ValueError(k)
 
     def build(self, case):
@@ -531,6 +762,8 @@ class C14(Family):
                 T = F(case["T"])
                 Tv = int(T) if (case["Tkind"] == "int" and T.denominator == 1) else float(T)
                 args = (Tv, case["n"]) + (() if case["nd"] is None else (case["nd"],))
+                if case.get("dflt"):            # pade(T): the default n=1, numdeg=None of the signature
+                    args = (Tv,)
                 num, den = ct.pade(*args)
                 return {"ok": {"num": [tok(fr(x)) for x in num], "den": [tok(fr(x)) for x in den]}}
             sys = self.build(case)
@@ -540,12 +773,14 @@ class C14(Family):
             r = call_sample(sys, case)
         except Exception as e:  # noqa
             return {"err": classify_exc(e), "exc": "%s: %s" % (type(e).__name__, str(e)[:160])}
+        jn = join_impl(r, case["join"]) if case.get("join") else None      # second step
         try:
             names = {"name": sys_norm(r.name), "in": list(r.input_labels), "out": list(r.output_labels),
                      "st": list(r.state_labels) if isinstance(r, ct.StateSpace) else []}
             if isinstance(r, ct.StateSpace):
                 n, p, m = r.nstates, r.noutputs, r.ninputs
-                return {"ok": {"type": "ss", "n": n, "p": p, "m": m, "dt": exact.dt_canon(r.dt),
+                return {"join": jn,
+                        "ok": {"type": "ss", "n": n, "p": p, "m": m, "dt": exact.dt_canon(r.dt),
                                "A": exmat.flat_tokens(exmat.from_np(r.A, n, n)),
                                "B": exmat.flat_tokens(exmat.from_np(r.B, n, m)),
                                "C": exmat.flat_tokens(exmat.from_np(r.C, p, n)),
@@ -554,7 +789,8 @@ class C14(Family):
                 num, den = np.asarray(r.num[0][0]), np.asarray(r.den[0][0])
                 cplx = bool(np.iscomplexobj(num) or np.iscomplexobj(den))
                 imag = float(max([0.0] + [abs(x.imag) for x in list(num) + list(den)])) if cplx else 0.0
-                return {"ok": {"type": "tf", "dt": exact.dt_canon(r.dt), "complex_dtype": cplx,
+                return {"join": jn,
+                        "ok": {"type": "tf", "dt": exact.dt_canon(r.dt), "complex_dtype": cplx,
                                "imag": imag,
                                "num": [tok(fr(np.real(x))) for x in num],
                                "den": [tok(fr(np.real(x))) for x in den]}, "names": names}
@@ -572,6 +808,7 @@ class C14(Family):
             den = [tok(x) for x in tk.rats()]
             return {"ok": {"num": num, "den": den}}
         o1, o2 = out
+        o1, mjoin = split_join(o1)
         names = parse_names(o2)
         if o1.startswith("err "):
             return {"err": o1.split()[1]}
@@ -589,7 +826,7 @@ class C14(Family):
             o = {"type": "tf", "dt": dt, "num": [tok(x) for x in tk.rats()], "den": [tok(x) for x in tk.rats()]}
         if "err" in names:
             return {"err": names["err"], "numeric": o}
-        return {"ok": o, "names": names}
+        return {"ok": o, "names": names, "join": mjoin}
 
     # ---- comparison -------------------------------------------------------------------
     def features(self, case, kind, impl=None, **extra):
@@ -645,6 +882,7 @@ class C14(Family):
         gbt = case["method"] in GBT_METHODS and alpha is not None and h is not None
         order = b["n"] if b["type"] == "ss" else len(b["den"]) - 1
         used = 0
+        vs = self.scales(case)["D"]      # exact scale of the transfer matrix (1 unless a scaled case)
         for z in POINTS:
             if not self.well_inside(b, z):
                 continue
@@ -661,12 +899,77 @@ class C14(Family):
             if got is None:
                 return "Gd(%s) undefined" % z
             used += 1
+            if vs != 1:
+                got, ref = exmat.scale(1 / vs, got), exmat.scale(1 / vs, ref)
             if not exmat.close(got, ref, VTOL):
-                return "Gd(%s) = %s, defining relation gives %s" % (
-                    z, [float(x) for r in got for x in r], [float(x) for r in ref for x in r])
+                return "Gd(%s) = %s, defining relation gives %s%s" % (
+                    z, [float(x) for r in got for x in r], [float(x) for r in ref for x in r],
+                    "" if vs == 1 else " (both divided by the scale %s of the system)" % vs)
             if used >= 2 * order + 1:
                 break
         return None
+
+    # ==== strengthening after seeded changes: comparison (begin) ====
+    def scales(self, case):
+        """exact scale of each matrix of a scaled case (powers of two); 1 otherwise"""
+        sc = case.get("scale") or {"B": 0, "C": 0}
+        sB, sC = Fraction(2) ** sc["B"], Fraction(2) ** sc["C"]
+        return {"A": Fraction(1), "B": sB, "C": sC, "D": sB * sC}
+
+    def coef_mismatch(self, case, a, b):
+        """tiny-coefficient cases: the implementation's coefficient lists against the exact ones,
+        entry by entry, with the absolute tolerance 2^-floor * S, S = max(1, max|den| + max|num|)
+        (floor = 43 for degree <= 2, 39 for degree 3, 4).  SciPy's ss2tf forms the numerator as
+        poly(A - BC) - poly(A): its accuracy is absolute (a few eps * S: at most 3 eps * S observed for
+        degree <= 2, 31 eps * S for degree 3-4 over 10^5 systems), so a coefficient is resolved only
+        above that floor; the tolerance is >= 190 x the observed error.  The zero system in the
+        constructor's normal form 0/1 is read as 0/den.  Returns (description or None, margin)."""
+        if b["type"] == "ss":      # zero-order hold: exact transfer function of the model's result
+            n = b["n"]
+            mn, md = siso_tf_exact(exmat.from_flat(b["A"], n, n), exmat.from_flat(b["B"], n, 1),
+                                   exmat.from_flat(b["C"], 1, n), exmat.from_flat(b["D"], 1, 1))
+        else:
+            mn, md = [F(x) for x in b["num"]], [F(x) for x in b["den"]]
+        an, ad = [F(x) for x in a["num"]], [F(x) for x in a["den"]]
+        if all(x == 0 for x in an) and ad == [1]:
+            ad = list(md)
+        L = max(len(mn), len(md), len(an), len(ad))
+        pad = lambda v: [Fraction(0)] * (L - len(v)) + list(v)
+        mn, md, an, ad = pad(mn), pad(md), pad(an), pad(ad)
+        deg = max(1, min(4, len(exact.ptrim(md)) - 1))
+        S = max(Fraction(1), max(abs(x) for x in md) + max(abs(x) for x in mn))
+        tol = S / 2 ** EPS_FLOOR[deg]
+        worst = max(max(abs(x - y) for x, y in zip(an, mn)), max(abs(x - y) for x, y in zip(ad, md)))
+        margin = 60 if worst == 0 else min(60, log2f(tol / worst))
+        for nm, u, v in (("num", an, mn), ("den", ad, md)):
+            for i, (x, y) in enumerate(zip(u, v)):
+                if abs(x - y) > tol:
+                    return ("%s[%d] = %.6g, exact %.6g (|difference| %.3g > %.3g = 2^-%d * %.3g)" % (
+                        nm, i - L, float(x), float(y), float(abs(x - y)), float(tol), EPS_FLOOR[deg], float(S)),
+                        margin)
+        return None, margin
+
+    def compare_join(self, case, impl, model):
+        """second step: timebase of the sampled system combined with a system of another timebase"""
+        a, b = impl.get("join"), model.get("join")
+        if not case.get("join") or a is None or b is None:
+            return None
+        j = case["join"]
+        feat = dict(other=j["dt"][0], period=case.get("ts_kind") or "number")
+        if "err" in b:
+            if "err" in a:
+                return None
+            return Verdict(VIOLATES, "second step (%s with a dt=%s system) returns timebase %s, the timebases "
+                           "are incompatible" % (j["op"], j["dt"], a["dt"]),
+                           self.features(case, "join-returns", None, **feat))
+        if "err" in a:
+            return Verdict(VIOLATES, "second step (%s with a dt=%s system) raises %s, expected timebase %s" % (
+                j["op"], j["dt"], a["exc"], b["dt"]), self.features(case, "join-raises", None, **feat))
+        if a["dt"] != b["dt"]:
+            return Verdict(VIOLATES, "second step (%s with a dt=%s system) has timebase %s, expected %s" % (
+                j["op"], j["dt"], a["dt"], b["dt"]), self.features(case, "join-dt", None, **feat))
+        return None
+    # ==== strengthening after seeded changes: comparison (end) ====
 
     def compare_names(self, case, impl, model):
         a, b = impl.get("names"), model.get("names")
@@ -715,7 +1018,9 @@ class C14(Family):
             if (a["n"], a["p"], a["m"]) != (b["n"], b["p"], b["m"]):
                 return Verdict(VIOLATES, "dimensions %s vs %s" % ((a["n"], a["p"], a["m"]), (b["n"], b["p"], b["m"])),
                                self.features(case, "shape"))
-            same = all(exmat.close([[F(x) for x in a[nm]]], [[F(x) for x in b[nm]]], TOL) for nm in "ABCD")
+            sc = self.scales(case)      # all 1 unless a scaled case: compared after undoing the scaling
+            same = all(exmat.close([[F(x) / sc[nm] for x in a[nm]]], [[F(x) / sc[nm] for x in b[nm]]], TOL)
+                       for nm in "ABCD")
             if not same:
                 d = self.defining_relation_fails(case, a, b)
                 if d is not None:
@@ -729,6 +1034,14 @@ class C14(Family):
             if a.get("imag", 0.0) > 1e-12:
                 return Verdict(VIOLATES, "complex coefficients (imag %g)" % a["imag"],
                                self.features(case, "complex"))
+            if case.get("tiny"):
+                d, _ = self.coef_mismatch(case, a, b)
+                if d is not None:
+                    return Verdict(VIOLATES, "transfer function coefficients: " + d,
+                                   self.features(case, "coefficient"))
+        v = self.compare_join(case, impl, model)
+        if v is not None:
+            return v
         v = self.compare_names(case, impl, model)
         if v is not None:
             return v
@@ -788,6 +1101,26 @@ class C14(Family):
         if case.get("ext"):
             st["expm_contract"] = self.expm_contract(case)
         st["names"] = "given" if case.get("names") else "default"
+        # strengthening after seeded changes: period kinds, second step, tiny / scaled streams
+        st["period"] = case.get("ts_kind") or ("int" if isinstance(ts_value(case), int) else "float")
+        if case.get("join"):
+            mj = model.get("join") or {}
+            st["second_step"] = "%s:%s->%s" % (st["period"] if st["period"] == "true" else "number",
+                                               case["join"]["dt"][0], "err" if "err" in mj else mj.get("dt", "-")[0])
+        if case.get("scale"):
+            st["scaled"] = "B2^%d,C2^%d" % (case["scale"]["B"], case["scale"]["C"])
+        if case.get("tiny"):
+            st["small_period"] = case["Ts"]
+            if "ok" in model and "ok" in impl and impl["ok"].get("type") == "tf":
+                b = dict(model["ok"], type="ss") if case["k"] == "tfzoh" else model["ok"]
+                if b["type"] == "ss":
+                    mn, _ = siso_tf_exact(exmat.from_flat(b["A"], b["n"], b["n"]), exmat.from_flat(b["B"], b["n"], 1),
+                                          exmat.from_flat(b["C"], 1, b["n"]), exmat.from_flat(b["D"], 1, 1))
+                else:
+                    mn = [F(x) for x in b["num"]]
+                mx = max(abs(x) for x in mn)
+                st["tiny_max_coef_log2"] = (log2f(mx) // 4) * 4 if mx else "zero"
+                st["tiny_tol_over_error_log2"] = (self.coef_mismatch(case, impl["ok"], b)[1] // 2) * 2
         return st
 
     def expm_contract(self, case):
@@ -831,6 +1164,8 @@ class C14(Family):
             yield dict(case, pw=None)
         if case.get("via") != "method":
             yield dict(case, via="method")
+        if case.get("join"):
+            yield dict(case, join=None)
         if case["k"] == "ss":
             n, p, m = case["n"], case["p"], case["m"]
             if n > 1 and not case.get("names"):
@@ -846,7 +1181,9 @@ class C14(Family):
     def search(self, rng, case, tier):
         out = []
         for _ in range(150):
-            out.append(self.gen_ss(rng, "quick") if case["k"] == "ss" else
+            out.append(self.gen_tftiny(rng, "quick", zoh=case["k"] == "tfzoh") if case.get("tiny") else
+                       self.gen_ss_scaled(rng, "quick") if case.get("scale") else
+                       self.gen_ss(rng, "quick") if case["k"] == "ss" else
                        self.gen_tf(rng, "quick") if case["k"] == "tf" else
                        self.gen_matched(rng, "quick") if case["k"] == "matched" else
                        self.gen_tfzoh(rng, "quick") if case["k"] == "tfzoh" else
